@@ -122,6 +122,7 @@ func c09Run(c c09Case) (fail *vlib.Failure, rs c09Stats) {
 	}
 	var (
 		violations int64
+		inflight   int32
 		firstMsg   atomic.Value
 		progress   int64
 		wg         gosync.WaitGroup
@@ -148,10 +149,13 @@ func c09Run(c c09Case) (fail *vlib.Failure, rs c09Stats) {
 					doAlloc = false
 				}
 				if doAlloc {
-					if alloc.mutex.VerifState() != 0 {
+					// collisions are counted by how many calls are under way at the same moment, not by
+					// looking at a lock: how the allocator keeps its callers apart is its business
+					if atomic.AddInt32(&inflight, 1) > 1 {
 						atomic.AddInt64(&rs.contention, 1)
 					}
 					f, err := mm.AllocFrame()
+					atomic.AddInt32(&inflight, -1)
 					atomic.AddInt64(&progress, 1)
 					if err != nil {
 						atomic.AddInt64(&rs.ooms, 1)
@@ -190,10 +194,11 @@ func c09Run(c c09Case) (fail *vlib.Failure, rs c09Stats) {
 					report("ownership table corrupt for frame %#x", fr)
 					continue
 				}
-				if alloc.mutex.VerifState() != 0 {
+				if atomic.AddInt32(&inflight, 1) > 1 {
 					atomic.AddInt64(&rs.contention, 1)
 				}
 				err := alloc.FreeFrame(mm.Frame(fr))
+				atomic.AddInt32(&inflight, -1)
 				atomic.AddInt64(&progress, 1)
 				atomic.AddInt64(&rs.frees, 1)
 				if err != nil {
@@ -539,7 +544,7 @@ func TestVerifC09(t *testing.T) {
 			labels = append(labels, "hit-out-of-memory")
 		}
 		if rs.contention > 0 {
-			labels = append(labels, "lock-contended")
+			labels = append(labels, "calls-under-way-at-the-same-time")
 		}
 		if rs.skipped {
 			labels = append(labels, "init-failed(routed to C03)")
@@ -551,7 +556,7 @@ func TestVerifC09(t *testing.T) {
 			labels = append(labels, "free-frames-behind-more-than-64-full-bitmap-words")
 		}
 		st.Add("calls_completed", rs.allocs+rs.frees+rs.ooms)
-		st.Add("lock_contention_events", rs.contention)
+		st.Add("calls_that_started_while_another_was_under_way", rs.contention)
 		st.Add("calls_that_completed_while_the_harness_held_the_allocator_lock", c09LockFreeCalls.Swap(0))
 		st.Case(c, nw >= 4 && rs.ooms > 0 && rs.contention > 0, labels...)
 		vlib.Report(t, "C09", c, fail)
